@@ -4,7 +4,8 @@
 
    The connection is a list of chunks: every Read of the underlying socket returns (a prefix of) the next
    chunk, then EOF.  The reader is bfe_bufio.Reader (4096 byte buffer) over io.LimitedReader (header limit).
-   Streams and limits are assumed <= 4000 bytes so the buffer never fills.
+   Header limits are assumed <= 4000 bytes so the buffer never fills while the header is read (streams may be longer:
+   a Read of the socket then fills at most the free part of the 4096-byte buffer).
    IPv6 *text* parsing (net.ParseIP on a token containing ':') is an oracle supplied with the input. *)
 From Coq Require Import List ZArith Bool Lia.
 From Bfe Require Import lib.Val lib.Bytes.
@@ -15,27 +16,30 @@ Open Scope Z_scope.
 Definition E_EOF : Z := 1.
 Definition E_CLOSED : Z := 2.
 Definition E_FULL : Z := 3.
+Definition E_TMO : Z := 4.
 Definition E_FUEL : Z := 9.
 Definition BUFSZ : Z := 4096.
 Definition NOLIMIT : Z := 2^63 - 1.
 
-Record rd := mkRd { r_buf : bytes; r_chunks : list bytes; r_lim : Z; r_err : Z; r_closed : bool }.
+(* r_end: the error a Read of the socket returns once the scripted chunks are used up: EOF, or a timeout while the
+   header read deadline is armed (a silent peer) *)
+Record rd := mkRd { r_buf : bytes; r_chunks : list bytes; r_lim : Z; r_err : Z; r_closed : bool; r_end : Z }.
 
-Definition set_err (r : rd) (e : Z) : rd := mkRd (r_buf r) (r_chunks r) (r_lim r) e (r_closed r).
-Definition set_buf (r : rd) (b : bytes) : rd := mkRd b (r_chunks r) (r_lim r) (r_err r) (r_closed r).
+Definition set_err (r : rd) (e : Z) : rd := mkRd (r_buf r) (r_chunks r) (r_lim r) e (r_closed r) (r_end r).
+Definition set_buf (r : rd) (b : bytes) : rd := mkRd b (r_chunks r) (r_lim r) (r_err r) (r_closed r) (r_end r).
 
 (* bufio.Reader.fill: one Read of LimitedReader{conn, N} into the free part of the buffer *)
 Definition fill (r : rd) : rd :=
   if r_lim r <=? 0 then set_err r E_EOF
   else if r_closed r then set_err r E_CLOSED
   else match r_chunks r with
-       | [] => set_err r E_EOF
+       | [] => set_err r (r_end r)
        | c :: cs =>
          let cap := Z.min (BUFSZ - blen (r_buf r)) (r_lim r) in
          let n := Z.to_nat (Z.min cap (blen c)) in
          let d := firstn n c in
          let c' := skipn n c in
-         mkRd (r_buf r ++ d) (match c' with [] => cs | _ => c' :: cs end) (r_lim r - blen d) (r_err r) (r_closed r)
+         mkRd (r_buf r ++ d) (match c' with [] => cs | _ => c' :: cs end) (r_lim r - blen d) (r_err r) (r_closed r) (r_end r)
        end.
 
 (* for b.w-b.r < n && b.err == nil { b.fill() } *)
@@ -268,16 +272,19 @@ Definition eff_limit (limit : Z) : Z := if limit <=? 0 then 2048 else limit.
 
 (* the whole connection: NewConn(conn, _, limit); RemoteAddr(); VirtualAddr(); Read until error.
    observation [src dst data err closed] *)
-Definition conn_run (limit : Z) (chunks : list bytes) (ora_s ora_d : bytes) : val :=
+Definition end_of (tmo : bool) : Z := if tmo then E_TMO else E_EOF.
+(* tmo: the peer stays silent after the last chunk (the header deadline fires) instead of closing; once the header
+   phase is over the deadline is cleared and the harness' connection reports EOF *)
+Definition conn_run (tmo : bool) (limit : Z) (chunks : list bytes) (ora_s ora_d : bytes) : val :=
   let cs := filter (fun c => match c with [] => false | _ => true end) chunks in
-  let r0 := mkRd [] cs (eff_limit limit) 0 false in
+  let r0 := mkRd [] cs (eff_limit limit) 0 false (end_of tmo) in
   let fuel := (fuel_of r0 + fuel_of r0)%nat in
   match proxy_read ora_s ora_d r0 with
   | (RErr code, _) => VL [VL []; VL []; VB []; VZ code; VZ 1]
   | (res, r1) =>
-    let r2 := mkRd (r_buf r1) (r_chunks r1) NOLIMIT (r_err r1) false in
+    let r2 := mkRd (r_buf r1) (r_chunks r1) NOLIMIT (r_err r1) false E_EOF in
     let '(data, e) := drain fuel r2 [] in
-    let code := if e =? E_EOF then 0 else if e =? E_CLOSED then 1 else 3 in
+    let code := if e =? E_EOF then 0 else if e =? E_CLOSED then 1 else if e =? E_TMO then 2 else 3 in
     let '(s, d) := match res with
                    | RHdr h =>
                      if h_local h || negb ((fam_hi (h_fam h) =? 1) || (fam_hi (h_fam h) =? 2)) then (None, None)
